@@ -85,6 +85,10 @@ def run(tier, seed):
             else:
                 y = rng.choice(["2.5", "-3", "40"])
         sx, sy = rng.choice([0, 0.1, 0.5, 2]), rng.choice([0, 0.2, 0.25])
+        if op in ("add", "sub") and rng.random() < 0.3 and not isinstance(x, str) and not isinstance(y, str):
+            # a large measurand with a tiny uncertainty (|x| / sigma of 1e7 and more): the uncertainty must not be obtained as a difference of two large numbers
+            y, sy = rng.choice([3e8, 123456.789, -2.5e6, 1e12]), rng.choice([1e-4, 1e-5, 1e-7])
+            sx = rng.choice([0, 1e-5, 1e-6])
         e = rng.choice([-4, -3, -2, -1, 0, 1, 2, 3, 4])
         lk, rk = rng.choice(["m", "m", "q"]), rng.choice(["m", "m", "q"])
         if lk == "q" and rk == "q":
